@@ -151,6 +151,19 @@ CHECKS["C11"] = {
     "note": TB + "; one-level resolution; content = source value minus one enclosing layer",
 }
 
+CHECKS["C06"] = {
+    "text": "Writer.tla defines writer.write as a function producing the output string (field line assembly, padding, auto "
+            "column over live entries, comma rule, separator between blocks only, failed blocks under the configured warning "
+            "with {n} = line count) and TLC proves ColumnLaw and AutoAligned (one minimal column) for every enumerated pair; "
+            "(A) all 85 entry shapes with key lengths {1,4,9,15} x 152 formats and (B) every library of up to 2 (quick) / 3 "
+            "blocks over 10 block templates x 108 formats are replayed on writer.write and write_string(unparse_stack=[]) "
+            "comparing the exact text and the unchanged format object; libraries parsed from random documents (failed and "
+            "duplicate blocks included) x random formats (value_column 0..40/auto) are validated by a TLC trace spec that "
+            "recomputes the text.",
+    "ref": "6/C06", "technique": "TLA+ spec (Writer.tla, string-producing) + TLC bounded-exhaustive replay with exact text comparison + TLC trace validation",
+    "note": TB + "; libraries as producible by the library (string values, failed blocks with raw text)",
+}
+
 NOT_APPLICABLE = {}
 for _e in ENGINES:
     _e["serves_properties"] = sorted(CHECKS)
